@@ -179,6 +179,151 @@ def float_solver(chk: Check, n):
             chk.fail("solve_power(…, 'n_obs') raised on a valid request", dict(input=kw, error=repr(ex)))
 
 
+def grid_rows(chk: Check, n):
+    """the row assembly of solve_power (Model/PowerGrid.lean): the real code's rows vs the model's rows built from the
+    values _solve_power_from_stats actually returned (recorded by a class-level wrapper) and the adjusted mean / count
+    _validate_power_parameters actually received"""
+    import tea_tasting as tt
+    from tea_tasting.metrics.mean import RatioOfMeans
+    rng = chk.rng
+    A = tt.aggr.Aggregates
+    rec = {}
+    orig_solve, orig_val = RatioOfMeans._solve_power_from_stats, RatioOfMeans._validate_power_parameters
+
+    def solve(self, *a, **kw):
+        v = orig_solve(self, *a, **kw)
+        rec.setdefault("values", []).append(v)
+        return v
+
+    def validate(self, *a, **kw):
+        rec["mm"], rec["cnt"] = kw.get("metric_mean", a[0] if a else None), kw.get("sample_count", a[1] if len(a) > 1 else None)
+        return orig_val(self, *a, **kw)
+    jobs = []
+    RatioOfMeans._solve_power_from_stats, RatioOfMeans._validate_power_parameters = solve, validate
+    try:
+        for i in range(n):
+            alt, ev, ut = CELLS[i % len(CELLS)]
+            par = ("power", "effect_size", "rel_effect_size", "n_obs")[i % 4]
+            sign = -1 if alt == "less" else 1
+            var, mean = rng.uniform(0.5, 9), rng.uniform(1, 10) * (-1 if i % 7 == 6 else 1)
+            vx, rho = rng.uniform(0.5, 4), rng.uniform(-0.9, 0.9)
+            with_cov = i % 3 == 0
+            data = A(rng.choice([800, 5000, 12345]), {"x": mean, "c": 1.0}, {"x": var, "c": vx},
+                     {("c", "x"): rho * math.sqrt(var * vx)})
+            kw = dict(alternative=alt, equal_var=ev, use_t=ut, alpha=rng.choice([0.01, 0.05, 0.1]),
+                      ratio=rng.choice([1, 2, 0.5, 3.5]), power=rng.choice([0.5, 0.8, 0.9]))
+            k_e, k_n = rng.randint(1, 3), rng.randint(0, 3)
+            effs = [sign * rng.uniform(0.02, 0.3) * (abs(mean) if (i // 4) % 2 == 0 else 1) for _ in range(k_e)]
+            if i % 5 == 3:
+                effs.append(effs[0])                       # a repeated value is one more row
+            rel = (i // 4) % 2 == 1
+            if rel and mean < 0:
+                effs = [-e for e in effs]                  # relative effects of a negative mean: keep the direction
+            ns = [int(rng.choice([50, 400, 5000, 10**5])) for _ in range(k_n)]
+            if ns and i % 6 == 2:
+                ns.append(ns[0])
+            if par in ("effect_size", "rel_effect_size"):
+                ekw = {}
+                if i % 8 == 1:
+                    ekw = {"effect_size": effs[0]}          # left configured while solving for it: must be ignored
+            else:
+                seq = tuple(effs) if len(effs) > 1 else effs[0]
+                ekw = {"rel_effect_size": seq} if rel else {"effect_size": seq}
+            nkw = {} if par == "n_obs" or not ns else {"n_obs": tuple(ns) if len(ns) > 1 else ns[0]}
+            cols = ("x", "c") if with_cov else ("x",)
+            inp = dict(parameter=par, cell=[alt, ev, ut], covariate=with_cov, mean=mean, var=var, count=data.count(),
+                       **{k: v for k, v in kw.items() if k not in ("alternative", "equal_var", "use_t")}, **ekw, **nkw,
+                       _effs=effs, _ns=ns, _rel=rel)
+            rec.clear()
+            try:
+                m = tt.Mean(*cols, **kw, **ekw, **nkw)
+                rows = list(m.solve_power(data, par))
+            except Exception as ex:  # noqa: BLE001
+                chk.fail("solve_power raised on a valid request (row assembly check)", dict(input=inp, error=repr(ex)))
+                continue
+            vals = rec.get("values", [])
+            if rec.get("mm") is None:
+                chk.disagree("_validate_power_parameters was not called with metric_mean / sample_count: the recorded "
+                             "tie of Model/PowerGrid.lean no longer applies", dict(input=inp))
+                continue
+
+            def seqw(x):
+                if x is None:
+                    return "-"
+                xs = list(x) if isinstance(x, (tuple, list)) else [x]
+                return f"{len(xs)} " + " ".join(rs(float(v)) for v in xs)
+            line = (f"grid {dict(power='power', effect_size='effect', rel_effect_size='rel', n_obs='n')[par]} "
+                    f"{rs(float(rec['mm']))} {rs(rec['cnt'])} {rs(kw['power'])} {seqw(m.effect_size)} "
+                    f"{seqw(m.rel_effect_size)} {seqw(m.n_obs)} {len(vals)} " + " ".join(rs(float(v)) for v in vals))
+            inp["_mm"] = float(rec["mm"])
+            jobs.append((inp, rows, line))
+            chk.case(("grid", par, alt, ev, ut, with_cov, rel, len(effs), len(ns)))
+            chk.branch(f"grid:{par}:{'rel' if rel else 'abs'}:{len(rows)}rows")
+    finally:
+        RatioOfMeans._solve_power_from_stats, RatioOfMeans._validate_power_parameters = orig_solve, orig_val
+    out = Driver("DriverGrid.lean").ask([j[2] for j in jobs])
+
+    def close(a, b):
+        a, b = F(a), F(b)
+        return a == b or abs(a - b) <= F(1, 10**13) * max(abs(a), abs(b))
+    for (inp, rows, line), mo in zip(jobs, out):
+        if mo == "raises" or mo.startswith(("cells", "err")):
+            chk.disagree("row assembly: the model " + ("raises" if mo == "raises" else f"expects another number of solver "
+                         f"calls ({mo})") + " where the real code returned rows",
+                         dict(input={k: v for k, v in inp.items() if not k.startswith("_")}, model=mo, wire=line,
+                              rows=[[str(x) for x in r] for r in rows]))
+            continue
+        mrows = [r.split() for r in mo.split(";")]
+        bad = None
+        if len(mrows) != len(rows):
+            bad = f"{len(rows)} rows, the model has {len(mrows)} (one per effect size x n_obs)"
+        else:
+            for k, (r, mr) in enumerate(zip(rows, mrows)):
+                for name, got, want in zip(("power", "effect_size", "rel_effect_size", "n_obs"), r, mr):
+                    if want == "none" or got is None:
+                        ok = (want == "none") == (got is None)
+                    elif name == "n_obs":
+                        ok = isinstance(got, int) and not isinstance(got, bool) and F(got) == parse_num(want)
+                    else:
+                        ok = close(got, parse_num(want))
+                    if not ok:
+                        bad = f"row {k}: {name} is {got!r}, the model's row assembly gives {want}"
+                        break
+                if bad:
+                    break
+        if bad:
+            # decide on the real values alone whether a clause of the property fails
+            mm = inp["_mm"]
+            want_e = [None] if inp["parameter"] in ("effect_size", "rel_effect_size") else inp["_effs"]
+            want_n = [None] if inp["parameter"] == "n_obs" else (inp["_ns"] or [inp["count"]])
+            grid = [(e, nn) for e in want_e for nn in want_n]
+            pub = {k: v for k, v in inp.items() if not k.startswith("_")}
+            if len(rows) != len(grid):
+                chk.fail("solve_power does not return one row per effect size x n_obs", dict(input=pub, rows=len(rows),
+                                                                                           expected=len(grid)))
+            else:
+                for r, (e, nn) in zip(rows, grid):
+                    given = r.rel_effect_size if inp["_rel"] else r.effect_size
+                    if (e is not None and not close(given, e)) or (nn is not None and r.n_obs != nn):
+                        chk.fail("rows of solve_power are not effect size (outer) x n_obs (inner) in input order",
+                                 dict(input=pub, rows=[[str(x) for x in q] for q in rows]))
+                        break
+                    if r.effect_size is None or r.rel_effect_size is None or r.n_obs is None or r.power is None:
+                        chk.fail("a row of solve_power lacks one of power / effect_size / rel_effect_size / n_obs",
+                                 dict(input=pub, row=[str(x) for x in r]))
+                        break
+                    if r.effect_size is not None and r.rel_effect_size is not None and mm != 0 and \
+                            abs(r.effect_size - r.rel_effect_size * mm) > 1e-9 * max(abs(r.effect_size), 1e-300):
+                        chk.fail("a row's absolute and relative effect size are not related by the (adjusted) sample mean",
+                                 dict(input=pub, row=[str(x) for x in r], mean=mm))
+                        break
+            chk.disagree("rows of solve_power differ from Model/PowerGrid.lean: " + bad,
+                         dict(input={k: v for k, v in inp.items() if not k.startswith("_")}, wire=line,
+                              rows=[[str(x) for x in r] for r in rows], model=mo))
+    if jobs:
+        chk.sample(dict(kind="row assembly", wire=jobs[0][2], model=out[0]))
+
+
 def main():
     chk = Check(PROP)
     chk.trusted = common.BASE_TRUST + [
@@ -203,6 +348,7 @@ def main():
         if not q:
             exact_brackets(chk, 72, 2)
     float_solver(chk, 36 if q else 600)
+    grid_rows(chk, 48 if q else 480)
     chk.cov["rule"] = ("exact: 12 cells x ratios {1,1/3,2,7/2,1/10,10} x random (variance, n, effect, alpha, target), the "
                        "bracket passed to brentq; float: real solver, all cells x 8 ratios x with/without covariate")
     chk.cov["proved"] = proved
